@@ -4,7 +4,7 @@ the one-line titles of the changes already kept for it (so that the next agent a
 directories out/<tag>m1, out/<tag>m2.  Nothing else from /verif goes into the prompt."""
 import glob, json, re, sys
 ID, tag = sys.argv[1], sys.argv[2]
-base = open(f'/tmp/seed/{ID}.prompt.txt').read()
+base = open(f'/tmp/seed/{ID}.prompt.txt').read() if __import__('os').path.exists(f'/tmp/seed/{ID}.prompt.txt') else open(f'/verif/seeded/_prompts/{ID}.prompt.txt').read()
 done = []
 for d in sorted(glob.glob(f'/verif/seeded/{ID}-*/meta.json')):
     m = json.load(open(d))
